@@ -64,7 +64,7 @@ func init() {
 		ID: "C19",
 		Rule: "cases: (1) predef: one predefined counter style × every integer of a dense interval (quick [-60,4000], thorough [-2000,25000]) + large magnitudes, RenderValue and RenderMarker against the specification's definition re-typed as reference descriptors; " +
 			"(2) styles: a generated set of 1–5 @counter-style rules (all systems, range, pad, negative, prefix/suffix, fallback and extends edges among themselves incl. cycles, to predefined and to undefined styles) compiled by the real cascade, each style × [-60,120] + ~35 large magnitudes through RenderValue/RenderMarker, a sample through documents (content: counter()/counters() with a style, ::marker with list-style-type, symbols(), string markers) against the Counter Styles 3 reference; " +
-			"(3) tree: a generated element tree (≤ 30 elements, depth ≤ 5) with counter-reset/-increment/-set on two names + list-item, ol/ul/li, ::before/::after carrying their own counter properties, display:none subtrees; texts of every ::before/::after (counters(c,\".\") | counter(d) | counters(list-item,\".\")) and ::marker against the CSS Lists 3 counters-set model. " +
+			"(3) tree: a generated element tree (≤ 30 elements, depth ≤ 5) with counter-reset/-increment/-set on two names + list-item, ol/ul/li, ::before/::after carrying their own counter properties, display:none subtrees; texts of every ::before/::after (counters(c,\".\") | counter(d) | counters(list-item,\".\") | counters(c,\"/\",upper-alpha) | counter(d,lower-roman)) and ::marker (11 predefined list-style-types, none) against the CSS Lists 3 counters-set model. " +
 			"A case is non-trivial when at least one (style, integer) pair / one pseudo-element text was compared and (styles) some pair left the plain numeric path (fallback, pad, negative sign, non-numeric system) or (tree) some counter had nesting depth ≥ 2 or was replaced by a sibling reset; distinct = distinct input.",
 		N:     nCases,
 		Gen:   genCase,
